@@ -703,6 +703,50 @@ func runC16(c *h.Ctx) {
 			checkMethodGrid(c, m, string(q), false, idx%2 == 0)
 		}
 	}
+	// one method applied to what another one returned (an int64, a double, a
+	// string that was a number): the second sees the value, whatever Go type
+	// carries it
+	for _, pair := range []string{"bigint().abs", "bigint().floor", "bigint().ceiling", "integer().abs", "bigint().double", "bigint().string", "bigint().number", "integer().bigint", "double().bigint", "number().integer",
+		"string().bigint", "abs().bigint", "bigint().abs().string", "size().abs", "integer().decimal", "floor().integer", "ceiling().bigint", "bigint().type", "double().abs().floor"} {
+		for _, t := range c16Nums {
+			idx++
+			if !c.Mine(idx) {
+				continue
+			}
+			checkMethodGrid(c, pair, t, true, idx%2 == 0)
+			checkMethodGrid(c, pair, strconv.Quote(t), false, idx%2 == 1)
+			checkMethodGrid(c, pair, t, false, idx%2 == 0)
+		}
+	}
+	// .keyvalue() followed by steps that hand the triples on (a filter, a lax
+	// subscript, .**{0}): each triple is an object of its own
+	for i, pt := range []string{`$.keyvalue() ? (@.key == "a")`, `$.keyvalue() ? (@.value > 1)`, `$.keyvalue()[0]`, `$.keyvalue()[*]`, `$.keyvalue().**{0}`, `$.keyvalue() ? (@.key != "b").value`, `$.keyvalue()[0 to last] ? (@.key == "b")`,
+		`$.*.keyvalue() ? (@.key == "x")`, `$.keyvalue() ? (@.key == "a" || @.key == "c").key`, `strict $.keyvalue() ? (@.key == "b")`, `$.keyvalue() ? (exists(@.value.x))`} {
+		if !c.Mine(i) {
+			continue
+		}
+		for _, d := range []string{`{"a":1,"b":2,"c":3}`, `{"c":{"x":1,"y":2},"a":{"x":3},"b":5}`, `{"b":[1,2],"a":"s"}`, `{"a":1}`} {
+			for _, useNum := range []bool{false, true} {
+				p := cachedPath(pt)
+				if p == nil {
+					continue
+				}
+				ec := &ExecCase{Text: pt, P: p, Doc: d, UseNum: useNum}
+				o := h.Call("query", p, ec.DocValue(), ec.Opts())
+				c.Eval(1)
+				verdict, feat, detail := modelVerdict(ec, o)
+				switch {
+				case verdict == "held":
+					c.Held("kv.shape")
+				case strings.HasPrefix(verdict, "skip:"):
+					c.Skip("kv.shape", strings.TrimPrefix(verdict, "skip:"))
+				default:
+					feat["form"] = "handed-on"
+					c.Violate("kv.shape", feat, pt+" on "+d+": "+detail, ec.Case())
+				}
+			}
+		}
+	}
 	c.SetExhaustive("11 methods x numeric grid (float64, json.Number, string, array) x other input kinds x lax/strict x silent/verbose; decimal (p,s) grid")
 	// keyvalue on plain inputs through the model
 	for i, t := range append(append([]string{}, c16Other...), `{"a":1,"b":{"c":2}}`, `[{"a":1},{"b":2}]`, `{"a":null}`) {
